@@ -24,3 +24,6 @@ PROPERTY ActC16
 PROPERTY ActC16Join
 PROPERTY ActC06
 INVARIANT DebugStop
+INVARIANT InvC04
+PROPERTY ActC04
+INVARIANT InvC05
